@@ -24,7 +24,6 @@ EXTENDS BigNat
 N(k) == FromInt(k)
 
 BlockSize == 32768          \* sieve::BLOCK_SIZE; intervals are sieved block by block
-PiTwo24   == 1077871        \* number of primes below 2^24 (factor-base primes are 24-bit, fbase.rs)
 
 \* Largest input size for which each consumer accepts work.
 \*  qs   : qsieve::qsieve returns immediately above 400 bits (qsieve.rs, guard at the top)
@@ -67,9 +66,9 @@ IntervalOK(mm) ==
 
 \* large prime bound: maxlarge = maxprime * lpf as u64 (then clamped to 32 bits by siqs/mpqs/cls).
 \* lpf = 0 would make fbase::cofactor reject every candidate (cofactor 1 > 0 * 0).
-LargeOK(pmax, lpf) == Ge(lpf, One) /\ Lt(Mul(pmax, lpf), Pow2(64))
+LargeOK(p, lpf) == Ge(lpf, One) /\ Lt(Mul(p, lpf), Pow2(64))
 \* double large prime bound: maxprime^2 * dlf computed in u64
-DoubleOK(pmax, dlf) == Lt(Mul(Mul(pmax, pmax), dlf), Pow2(64))
+DoubleOK(p, dlf) == Lt(Mul(Mul(p, p), dlf), Pow2(64))
 
 Clamp32(x) == IF Lt(x, Pow2(32)) THEN x ELSE Sub(Pow2(32), One)
 
@@ -107,8 +106,8 @@ SiqsOK(e) ==
   /\ Ge(e.acount, One)                                 \* at least one A to sieve
   /\ Ge(e.adiv, N(3))                                  \* select_a: assert!(div >= 3)
   /\ IntervalOK(e.interval)
-  /\ LargeOK(PMax(e), e.lpf)
-  /\ (e.dbl => DoubleOK(PMax(e), e.dlf))
+  /\ LargeOK(PMin(e), e.lpf)
+  /\ (e.dbl => DoubleOK(PMin(e), e.dlf))
   /\ ThresholdOK(e.bits, e.interval, MaxCofSiqs(PMin(e), e.lpf, e.dlf, e.dbl),
                  MaxCofSiqs(PMax(e), e.lpf, e.dlf, e.dbl))
   /\ AFits(e.bits, e.interval)
@@ -126,8 +125,8 @@ MpqsOK(e) ==
   /\ FBaseOK(e.fb)
   /\ ~e.interval_neg
   /\ IntervalOK(e.interval)
-  /\ LargeOK(PMax(e), e.lpf)
-  /\ (e.dbl => DoubleOK(PMax(e), e.dlf))
+  /\ LargeOK(PMin(e), e.lpf)
+  /\ (e.dbl => DoubleOK(PMin(e), e.dlf))
   /\ e.bits \div 2 + BitLen(Shr(e.interval, 1)) >= BitLen(MaxCofMpqs(PMin(e), e.lpf, e.dlf, e.dbl))
   /\ e.bits \div 2 + BitLen(Shr(e.interval, 1)) - BitLen(MaxCofMpqs(PMax(e), e.lpf, e.dlf, e.dbl)) < 256
 
@@ -144,7 +143,7 @@ QsOK(e) ==
   /\ Ge(e.nblocks, One) /\ Lt(Mul(e.nblocks, N(BlockSize)), Pow2(31))
   /\ Ge(e.lpf, One)
   /\ Lt(Mul(PMin(e), e.lpf), Pow2(32))
-  /\ Lt(MaxCofQs(PMax(e), e.lpf, e.dbl), Pow2(64))
+  /\ Lt(MaxCofQs(PMin(e), e.lpf, e.dbl), Pow2(64))
   /\ e.bits \div 2 + 16 >= BitLen(MaxCofQs(PMin(e), e.lpf, e.dbl))
 
 \* class group sieve (classgroup.rs): like SIQS; nfacs = 0 selects the unit form, which Poly::first
@@ -156,8 +155,8 @@ ClsOK(e) ==
      ELSE NFacsOK(e.nfacs, Fb8(e.fb)) /\ AFits(e.bits, e.interval)
   /\ Ge(e.acount, One)
   /\ IntervalOK(e.interval)
-  /\ LargeOK(PMax(e), e.lpf)
-  /\ (e.dbl => DoubleOK(PMax(e), e.dlf))
+  /\ LargeOK(PMin(e), e.lpf)
+  /\ (e.dbl => DoubleOK(PMin(e), e.dlf))
   /\ ThresholdOK(e.bits, e.interval, MaxCofSiqs(PMin(e), e.lpf, e.dlf, e.dbl),
                  MaxCofSiqs(PMax(e), e.lpf, e.dlf, e.dbl))
 
